@@ -33,6 +33,7 @@
 #include <cctype>
 #include <cerrno>
 #include <charconv>
+#include <clocale>
 #include <cmath>
 #include <cstdint>
 #include <cstdio>
@@ -101,6 +102,28 @@ struct SerializeOptions
 };
 
 class Json; // forward declaration
+
+namespace detail
+{
+/// \brief std::strtod on a JSON number token, whatever LC_NUMERIC is.
+/// strtod expects the decimal point of the current locale (',' under de_DE) and stops
+/// at anything else, while a JSON number always has '.': hand strtod the token with
+/// the locale's decimal point in place of the '.'.
+inline double jsonToDouble(std::string_view token)
+{
+  std::string text(token);
+  const char *point = std::localeconv()->decimal_point;
+  if (point != nullptr && point[0] != '\0' && std::strcmp(point, ".") != 0)
+  {
+    const std::size_t dot = text.find('.');
+    if (dot != std::string::npos)
+    {
+      text.replace(dot, 1, point);
+    }
+  }
+  return std::strtod(text.c_str(), nullptr);
+}
+} // namespace detail
 
 // =============================================================
 // SmallVec: small-buffer vector for arrays
@@ -879,16 +902,19 @@ private:
     }
     // Shortest of 15/16/17 significant digits that reads back as the same double
     // (17 always does).
+    // std::to_chars writes the "%.*g" text of the "C" locale whatever LC_NUMERIC is.
     char buf[32];
+    std::string out;
     for (int precision = 15; precision <= 17; ++precision)
     {
-      std::snprintf(buf, sizeof(buf), "%.*g", precision, d);
-      if (std::strtod(buf, nullptr) == d)
+      const auto res =
+        std::to_chars(buf, buf + sizeof(buf), d, std::chars_format::general, precision);
+      out.assign(buf, res.ptr);
+      if (detail::jsonToDouble(out) == d)
       {
         break;
       }
     }
-    std::string out(buf);
     if (out.find_first_of(".eE") == std::string::npos)
     {
       out += ".0";
@@ -1277,9 +1303,7 @@ private:
 
     if (hasDecimal)
     {
-      char *endPtr;
-      double d = std::strtod(std::string(numStr).c_str(), &endPtr);
-      out = Json(d);
+      out = Json(detail::jsonToDouble(numStr));
     }
     else
     {
@@ -1291,9 +1315,7 @@ private:
       }
       else
       {
-        char *endPtr;
-        double d = std::strtod(std::string(numStr).c_str(), &endPtr);
-        out = Json(d);
+        out = Json(detail::jsonToDouble(numStr));
       }
     }
 
